@@ -48,7 +48,7 @@ def run(module, cfg, work, workers=16, args=(), env=None, timeout=1800, heap="4g
     shutil.rmtree(meta, ignore_errors=True)
     if not os.path.isabs(cfg):
         cfg = os.path.join(SPEC, cfg)
-    cmd = ["java", "-XX:+UseParallelGC", "-Xmx" + heap, "-Djava.io.tmpdir=" + tmp, "-cp", JAR, "tlc2.TLC",
+    cmd = ["java", "-XX:+UseParallelGC", "-Xss64m", "-Xmx" + heap, "-Djava.io.tmpdir=" + tmp, "-cp", JAR, "tlc2.TLC",
            "-workers", str(workers), "-metadir", meta, "-noGenerateSpecTE", "-config", cfg]
     if not deadlock:
         cmd.append("-deadlock")  # i.e. do NOT check deadlock
